@@ -1,9 +1,24 @@
 (* C09: FmtStr.splice replaces exactly the requested range, for arbitrary
    FmtStrs (any number of runs, empty runs, no runs), arbitrary replacement
-   values and all 0 <= start <= end; append; setslice_with_length / setitem. *)
+   values and all 0 <= start <= end; append; setslice_with_length / setitem.
+
+   INTERFACE for importers (C04) -- characterising lemmas:
+     splice_cells / splice_text / splice_len   0 <= s <= e:  cells (splice f new s e) =
+                                               firstn s (cells f) ++ op_cells new ++ skipn e (cells f)
+     splice_nothing                            empty replacement and e <= s returns f itself
+     splice_past_end, append_cells,            a start past the end appends; append = splice at len
+       append_is_splice_at_len
+     splice_no_empty_runs                      the result has no empty run (except the early return)
+     setslice_cells, setitem_cells             0 <= s <= e: setslice_with_length on cells =
+                                               setslice_ref (Spec/ListOps.v): left/right padding with
+                                               blanks, AssertionError, ValueError
+     setslice_exact                            a value of length e - s into a range inside the row:
+                                               Ok, that range replaced, length unchanged
+     splice_items_triples, loop_inserted,      the loop itself: zip over divides = runs with running
+       loop_pending                            offsets; the "inserted exactly once" invariant        *)
 From Curtsies Require Import Model.Base Spec.ListOps Model.Slice Model.Splice Proofs.Slice.
 From Coq Require Import Lia ZifyBool ZifyNat ZifyN.
-Close Scope N_scope.
+Local Close Scope N_scope.
 Local Open Scope Z_scope.
 
 (* ====================================================================== *)
@@ -352,4 +367,23 @@ Proof.
     destruct (setslice_with_length f s e fs limit) as [r|ex]; cbn [res_map] in H; [|discriminate].
     injection H as H. exists r. split; [reflexivity|]. split; [exact H|].
     rewrite (len_cells r), H, Hlen. lia.
+Qed.
+
+(* ====================================================================== *)
+(* 6. structure of the result: apart from the early return, the final filter
+      leaves no empty run                                                    *)
+Lemma forallb_filter {X} (p : X -> bool) l : forallb p (filter p l) = true.
+Proof.
+  induction l as [|x l IH]; [reflexivity|]. cbn [filter].
+  destruct (p x) eqn:E; [cbn [forallb]; now rewrite E|exact IH].
+Qed.
+
+Theorem splice_no_empty_runs f new s e :
+  ~ (op_len new = 0 /\ end_of s e <= s) ->
+  forallb (fun c => negb (is_empty (c_s c))) (splice f new s e) = true.
+Proof.
+  intros H. unfold splice. fold (end_of s e).
+  destruct ((op_len new =? 0) && (end_of s e <=? s)) eqn:E; [lia|].
+  destruct (fold_left _ _ _) as [comps inserted].
+  apply forallb_filter.
 Qed.
